@@ -189,6 +189,21 @@ func c10Scenarios(reg lint.Registry, all []seeds.Seed) []c10Scenario {
 		c10Scenario{"lint b ∥ lint c", [][]c10Op{{opLint("b", b, reg)}, {opLint("c", c, reg)}}},
 		c10Scenario{"lint b; lint a ∥ lint d; lint c", [][]c10Op{{opLint("b", b, reg), opLint("a", a, reg)}, {opLint("d", d, reg), opLint("c", c, reg)}}},
 	)
+	// two filters whose source lists OVERLAP (same first source, different second one): whatever Filter derives from the
+	// registry's per-source index is derived from the same entry by both
+	if srcs := sortedSources(reg); len(srcs) >= 3 {
+		cnt := func(s lint.LintSource) int { return len(reg.BySource(s)) }
+		top := append(lint.SourceList{}, srcs...)
+		sort.SliceStable(top, func(i, j int) bool { return cnt(top[i]) > cnt(top[j]) })
+		A, B, C := top[0], top[1], top[2]
+		fab := lint.FilterOptions{IncludeSources: lint.SourceList{A, B}}
+		fac := lint.FilterOptions{IncludeSources: lint.SourceList{A, C}}
+		fba := lint.FilterOptions{IncludeSources: lint.SourceList{B, A}}
+		sc = append(sc,
+			c10Scenario{"filter [A,B] ∥ filter [A,C]", [][]c10Op{{opFilter("A,B", reg, fab)}, {opFilter("A,C", reg, fac)}}},
+			c10Scenario{"filter [A,B] ∥ filter [B,A] ∥ lint a", [][]c10Op{{opFilter("A,B", reg, fab)}, {opFilter("B,A", reg, fba)}, {opLint("a", a, reg)}}},
+		)
+	}
 	if len(crls) > 0 {
 		sc = append(sc, c10Scenario{"lint crl ∥ lint a ∥ filter", [][]c10Op{{opLint("crl", crls[0], reg)}, {opLint("a", a, reg)}, {opFilter("names", reg, f2)}}})
 	}
